@@ -7,10 +7,14 @@ import (
 	"time"
 
 	eio "github.com/karagenc/socket.io-go/engine.io"
+	"github.com/karagenc/socket.io-go/internal/verifhook"
 	eioparser "github.com/karagenc/socket.io-go/engine.io/parser"
 )
 
 // Exported wrappers for the verification harness (build tag `verif`).
+
+// VerifSetYield installs the function called at the library's yield points (nil removes it).
+func VerifSetYield(f func(point string)) { verifhook.SetYield(f) }
 
 // ---- handler stores
 
